@@ -1,5 +1,5 @@
-"""C02 consensus agreement: theorems in coq/Properties/C02.v (stage 1: quorum arithmetic for all n, commit-quorum
-backing of every Decide of the model); correspondence = per-process trace inclusion of the label sequences
+"""C02 consensus agreement: theorems in coq/Properties/C02.v (agreement for the network semantics Qbft/Net.v without compare
+failures, all n, <= f Byzantine; single-process invariants; quorum arithmetic); correspondence = per-process trace inclusion of the label sequences
 recorded from the real core/qbft.Run in coq/Qbft/Model.v; global monitor on observed honest cluster executions:
 no two Decide callbacks carry different values."""
 import vp
@@ -9,13 +9,14 @@ import qbft_engine as qe
 def main():
     R = vp.Result("C02")
     R.assumptions = [
-        "STAGE 1: the network-level agreement theorem (DESIGN.md C02, Dolev-Yao adversary with <= f Byzantine members) is NOT yet proved; Properties/C02.v holds the quorum-intersection arithmetic for every n >= 1 and the single-process fact that every Decide is backed by a commit quorum",
+        "agreement is proved for executions in which Definition.Compare never reports a mismatch (default configuration); the general statement with CmpFail constrained to a fixed (process, value) relation is NOT yet proved (TODO-stage-2 in Properties/C02.v)",
+        "signatures and value hashes are symbolic: a message part with an honest source exists only if that member broadcast it; sources are cluster members (the wrapper rejects unknown peers)",
         "the model Qbft/Model.v is tied to core/qbft/qbft.go by sampled trace inclusion (one injected event at a time, quiescent between events via synctest.Wait); real races are interleavings of these atomic select-case bodies",
         "Go map-iteration nondeterminism is absorbed by admissibility checks (pick_ok / adm_qrc / fplus1_ok) that over-approximate the orders Go can produce",
         "not modelled: invalid message types (rejected by the wrapper before Run), failing Transport.Broadcast, context cancellation, nested justifications, int64 overflow of rounds",
         "agreement monitor is evaluated only on executions in which every process is a real honest qbft.Run (cluster-*); single-process adversarial sequences feed more than f forged sources and are outside the fault assumption",
     ]
-    R.proofs()
+    R.proofs(extra_targets=["Qbft/Corr.v"])
     n = 8000 if R.thorough else 500
     res = qe.run(R, n)
     qe.coverage(R, res)
@@ -26,6 +27,6 @@ def main():
             continue
         R.violation("agreement:two-decides-differ", "two Decide callbacks of history %d (%s, n=%d) carry different values" % (cid, h["kind"], h["nodes"]),
                     qe.replay_obj(h))
-    R.coverage["monitor"] = "C02: all Decide outputs of one execution carry the same value (cluster executions: %d)" % sum(
-        1 for h in res["hs"] if h["kind"].startswith("cluster"))
+    ncl = sum(1 for h in res["hs"] if h["kind"].startswith("cluster"))
+    R.coverage["monitor"] = "C02: all Decide outputs of one execution carry the same value (cluster executions: %d); every cluster execution replayed as an execution of Qbft/Net.v by nrun (refused: %d)" % (ncl, len(res.get("net", [])))
     R.finish()
